@@ -25,6 +25,17 @@ W_ARGERR = {'steps': [P(['def', 'A$', ['X$', 'Y%'], sv('X$')]),
                       P(['let', sv('B$'), lit('zz')]), P(['let', sv('Q!'), FRE_S])]}
 
 
+# repeated parameter names: the caller's variable must come back, whatever the order of save and bind
+W_DUP = {'steps': [P(['def', 'P!', ['X', 'X!'], ['cat', sv('X!'), ['num', 0, '%']]]),
+                   P(['def', 'A$', ['A$', 'X!', 'A$'], cat(sv('A$'), lit('-'))]),
+                   P(['def', 'K%', ['Y%', 'Y%'], ['len', ['chr', ['num', 300, '%']]]]),
+                   P(['let', sv('X!'), ['num', 5, '%']]), P(['let', sv('A$'), lit('mine')]), P(['let', sv('Y%'), ['num', 9, '%']]),
+                   P(['let', sv('Q!'), fn('P!', ['num', 1, '%'], ['num', 2, '%'])]),
+                   P(['let', sv('C$'), fn('A$', lit('p'), ['num', 3, '%'], lit('q'))]),
+                   P(['let', sv('N%'), fn('K%', ['num', 1, '%'], ['num', 2, '%'])]),
+                   P(['let', sv('R!'), sv('X!')]), P(['let', sv('B$'), sv('A$')])]}
+
+
 class C20(C10):
     ID = 'C20'
     PROPS = 'props/C20.v'
@@ -41,7 +52,7 @@ class C20(C10):
                'tested by correspondence and the oracle, not proved')
 
     def corpus(self):
-        return [dict(w) for w in (W_D15, W_D20A, W_D20B, W_ARGERR, W_RECURSION, W_D10D_ALIAS)] + [
+        return [dict(w) for w in (W_D15, W_D20A, W_D20B, W_ARGERR, W_RECURSION, W_D10D_ALIAS, W_DUP)] + [
             {'steps': [P(['def', 'A$', [], lit('k')]), P(['let', sv('A$'), fn('A$')])]},
             {'steps': [D(['clear', 60]), P(['def', 'B$', ['X$', 'Y$', 'X!', 'Y%'], cat(sv('X$'), sv('Y$'))]),
                        P(['let', sv('A$'), fn('B$', lit('abc'), lit('def'), ['num', 1, '%'], ['num', 2, '%'])]),
